@@ -216,7 +216,7 @@ class AEval:
             v = self.ev(args[0])
             if isinstance(v, str):
                 return v
-        if isinstance(e.func, ast.Attribute) and short in ("isdigit", "isnumeric", "isdecimal", "startswith", "endswith", "isalpha", "isalnum", "lower", "upper", "strip") :
+        if isinstance(e.func, ast.Attribute) and short in ("isdigit", "isnumeric", "isdecimal", "startswith", "endswith", "isalpha", "isalnum", "lower", "upper", "strip", "replace"):
             recv = self.ev(e.func.value)
             if isinstance(recv, str):
                 return getattr(recv, short)(*[self.ev(a) for a in args])
@@ -289,6 +289,35 @@ def truth_table(expr, models, atom_for):
     for m in models:
         out.append(bool(AEval(atom_for(m)).truth(AEval(atom_for(m)).ev(expr))))
     return out
+
+
+def run_block(stmts, atom, env=None):
+    """finite-model interpretation of a straight-line / if-structured block: names assigned in the block live in env, everything else is
+    asked of atom.  Returns ("return", value) | ("raise", class name) | ("fall", None).  Anything else in the block: Inconclusive."""
+    env = {} if env is None else env
+
+    def at(node):
+        if isinstance(node, ast.Name) and node.id in env:
+            return env[node.id]
+        return atom(node)
+    ev = AEval(at)
+    for s in stmts:
+        if isinstance(s, ast.Expr) and isinstance(s.value, ast.Constant) or isinstance(s, ast.Pass):
+            continue
+        if isinstance(s, ast.Assign) and len(s.targets) == 1 and isinstance(s.targets[0], ast.Name):
+            env[s.targets[0].id] = ev.ev(s.value)
+            continue
+        if isinstance(s, ast.If):
+            r = run_block(s.body if ev.truth(ev.ev(s.test)) else s.orelse, atom, env)
+            if r[0] != "fall":
+                return r
+            continue
+        if isinstance(s, ast.Return):
+            return ("return", None if s.value is None else ev.ev(s.value))
+        if isinstance(s, ast.Raise):
+            return ("raise", raised_class([s]))
+        raise Inconclusive("block interpreter: statement `%s`" % " ".join(u(s).split())[:60])
+    return ("fall", None)
 
 
 # ---------------------------------------------------------------------------------------------- control-flow helpers
@@ -454,7 +483,7 @@ def resolved_text(fn, e, at_stmt, depth=0):
         def visit_Name(self, node):
             if isinstance(node.ctx, ast.Load) and depth < 4:
                 d = reaching_def(fn, node.id, at_stmt)
-                if d is not None and not any(isinstance(x, (ast.Lambda, ast.ListComp, ast.GeneratorExp)) for x in ast.walk(d)):
+                if d is not None and not any(isinstance(x, (ast.Lambda, ast.ListComp, ast.GeneratorExp, ast.List, ast.Dict, ast.Set, ast.DictComp, ast.SetComp)) for x in ast.walk(d)):
                     dstmt = None
                     for s in ast.walk(fn):
                         if isinstance(s, ast.Assign) and s.value is d:
